@@ -10,6 +10,7 @@ transformed block footprints (shapely).
 import FemtoVerif.Proofs.TreeLemmas
 import FemtoVerif.Model.TrenchProg
 import FemtoVerif.Proofs.Session
+import FemtoVerif.Proofs.Fmt
 import FemtoVerif.Gen.Data
 import Mathlib.Tactic.Linarith
 import Mathlib.Tactic.Set
@@ -869,6 +870,351 @@ theorem farcallFile_ok (cfg : Cfg) (c : Col) (hh : headerClean cfg.header = true
       dwellOfList (farcallFile cfg c).1 = (farcallFile cfg c).2.dwellTotal := by
   obtain ⟨h1, h2⟩ := sessionWith_ok cfg (farcallBody cfg c) (farcallBody_ok cfg c) hh
   exact ⟨structure?_flattenStmts _ h1, h2⟩
+
+/-! ### from the compiler to the depth of every wall pass: the block of the model file run by the tree controller -/
+
+theorem execStmtsG_append (h : Handler) (a b : List Stmt) (σ : St) :
+    (execStmtsG h (a ++ b) σ).1 = (execStmtsG h b (execStmtsG h a σ).1).1 := by
+  induction a generalizing σ with
+  | nil => simp [execStmtsG]
+  | cons s a ih => simp only [List.cons_append, execStmtsG, ih]
+
+/-- the exported tree holds, under the path the call file loads, an x / y-only leaf program of the name the call file calls -/
+def InTree (t : Tree) (path name : String) : Prop :=
+  progKey path = progKey name ∧
+    ∃ id body, resolve t path = some id ∧ t.find id = some body ∧ progKey id = progKey name ∧ isLeafXY body = true
+
+/-- controller-side invariant while a block of the call file runs: absolute mode, `$ZCURR` declared, (once loaded) the wall
+program loaded and bound to its leaf file, the depth of the stage and the value of `$ZCURR` as far as they are known -/
+structure Inv (t : Tree) (p : String) (ld : Bool) (zp zv : Option Rat) (σ : St) : Prop where
+  abs : σ.absMode = true
+  decl : σ.declared.contains "zcurr" = true
+  ldd : ld = true → σ.loaded.contains (progKey p) = true ∧
+    ∃ id body, lookupBound σ.bound (progKey p) = some id ∧ t.find id = some body ∧ progKey id = progKey p ∧ isLeafXY body = true
+  posz : ∀ z, zp = some z → σ.pos.z = some z
+  val : ∀ z, zv = some z → lookupVar σ.vals "zcurr" = some z
+
+/-- a compile step whose output, run by the tree controller, takes `P`-states to `Q`-states whenever the step succeeds -/
+def Sem (t : Tree) (fuel : Nat) (P Q : St → Prop) (f : CS → Res) : Prop :=
+  ∀ cs, (f cs).err = none → ∀ σ, P σ → Q (execStmtsG (stepT t fuel) (f cs).out σ).1
+
+theorem Sem.andThen {t : Tree} {fuel : Nat} {P Q R : St → Prop} {f g : CS → Res} (hf : Sem t fuel P Q f) (hg : Sem t fuel Q R g) :
+    Sem t fuel P R (fun cs => (f cs).andThen g) := by
+  intro cs herr σ hP
+  simp only [Res.andThen] at herr ⊢
+  cases he : (f cs).err with
+  | some e => rw [he] at herr; simp only at herr; rw [he] at herr; cases herr
+  | none =>
+    rw [he] at herr
+    simp only at herr ⊢
+    rw [execStmtsG_append]
+    exact hg (f cs).cs herr _ (hf cs he σ hP)
+
+/-- instructions that leave the invariant alone: no x / y / z word, no variable, no program management -/
+def calm : Instr → Bool
+  | .blank | .comment _ | .msg | .pso _ _ | .dwell _ => true
+  | .g1 w => w.x.isNone && w.y.isNone && w.z.isNone && w.zvar.isNone
+  | _ => false
+
+theorem calm_step (t : Tree) (fuel : Nat) (p : String) (ld : Bool) (zp zv : Option Rat) (σ : St) (i : Instr) (hc : calm i = true)
+    (h : Inv t p ld zp zv σ) : Inv t p ld zp zv (stepT t fuel σ i).1 := by
+  rw [stepT_flat t fuel σ i (by intro q hq; subst hq; simp [calm] at hc) (by intro k q hq; subst hq; simp [calm] at hc)]
+  cases i with
+  | g1 w =>
+    simp only [calm, Bool.and_eq_true, Option.isNone_iff_eq_none] at hc
+    obtain ⟨⟨⟨hx, hy⟩, hz⟩, hzv⟩ := hc
+    refine ⟨h.abs, h.decl, h.ldd, ?_, h.val⟩
+    intro z hz'
+    simp only [stepFlat, step, zTarget, hzv, hz, hx, hy, axisTarget_none]
+    exact h.posz z hz'
+  | blank => exact ⟨h.abs, h.decl, h.ldd, h.posz, h.val⟩
+  | comment _ => exact ⟨h.abs, h.decl, h.ldd, h.posz, h.val⟩
+  | msg => exact ⟨h.abs, h.decl, h.ldd, h.posz, h.val⟩
+  | pso _ _ => exact ⟨h.abs, h.decl, h.ldd, h.posz, h.val⟩
+  | dwell _ => exact ⟨h.abs, h.decl, h.ldd, h.posz, h.val⟩
+  | _ => simp [calm] at hc
+
+theorem calm_emit (t : Tree) (fuel : Nat) (p : String) (ld : Bool) (zp zv : Option Rat) (is : List Instr)
+    (hc : ∀ i ∈ is, calm i = true) : ∀ σ, Inv t p ld zp zv σ → Inv t p ld zp zv (execStmtsG (stepT t fuel) (emit is) σ).1 := by
+  induction is with
+  | nil => intro σ h; simpa [emit, execStmtsG] using h
+  | cons i is ih =>
+    intro σ h
+    simp only [emit, List.map_cons, execStmtsG, execStmtG]
+    exact ih (fun j hj => hc j (by simp [hj])) _ (calm_step t fuel p ld zp zv σ i (hc i (by simp)) h)
+
+
+theorem sem_calm {t : Tree} {fuel : Nat} {p : String} {ld : Bool} {zp zv : Option Rat} (f : CS → Res)
+    (h : ∀ cs, ∃ is, (f cs).out = emit is ∧ ∀ i ∈ is, calm i = true) :
+    Sem t fuel (Inv t p ld zp zv) (Inv t p ld zp zv) f := by
+  intro cs _ σ hP
+  obtain ⟨is, he, hc⟩ := h cs
+  rw [he]
+  exact calm_emit t fuel p ld zp zv is hc σ hP
+
+theorem sem_comment {t : Tree} {fuel : Nat} {p : String} {ld : Bool} {zp zv : Option Rat} (b : Bool) :
+    Sem t fuel (Inv t p ld zp zv) (Inv t p ld zp zv) (fun cs => Res.ofOut (comment b cs)) :=
+  sem_calm _ (fun cs => by
+    unfold comment; cases b
+    · exact ⟨[.blank], rfl, by intro i hi; simp at hi; subst hi; rfl⟩
+    · exact ⟨[.blank, .comment "; user comment"], rfl, by intro i hi; simp at hi; rcases hi with rfl | rfl <;> rfl⟩)
+
+theorem sem_msg {t : Tree} {fuel : Nat} {p : String} {ld : Bool} {zp zv : Option Rat} :
+    Sem t fuel (Inv t p ld zp zv) (Inv t p ld zp zv) (instrR [.msg]) :=
+  sem_calm _ (fun cs => ⟨[.msg], rfl, by intro i hi; simp at hi; subst hi; rfl⟩)
+
+theorem sem_shutter {t : Tree} {fuel : Nat} {p : String} {ld : Bool} {zp zv : Option Rat} (cfg : Cfg) (on : Bool) :
+    Sem t fuel (Inv t p ld zp zv) (Inv t p ld zp zv) (shutterR cfg on) :=
+  sem_calm _ (fun cs => by
+    unfold shutterR shutter
+    split
+    · exact ⟨[.pso cfg.psoAxis true], rfl, by intro i hi; simp at hi; subst hi; rfl⟩
+    · split
+      · exact ⟨[.pso cfg.psoAxis false], rfl, by intro i hi; simp at hi; subst hi; rfl⟩
+      · exact ⟨[], rfl, by intro i hi; simp at hi⟩)
+
+theorem sem_dwell {t : Tree} {fuel : Nat} {p : String} {ld : Bool} {zp zv : Option Rat} (q : Option Rat) :
+    Sem t fuel (Inv t p ld zp zv) (Inv t p ld zp zv) (dwellR q) :=
+  sem_calm _ (fun cs => by
+    unfold dwellR dwell
+    cases q with
+    | none => exact ⟨[], rfl, by intro i hi; simp at hi⟩
+    | some v =>
+      by_cases h0 : v = 0
+      · simp only [h0, if_true]; exact ⟨[], rfl, by intro i hi; simp at hi⟩
+      · simp only [h0, if_false]; exact ⟨[.dwell (rabs v)], rfl, by intro i hi; simp at hi; subst hi; rfl⟩)
+
+theorem sem_uMove {t : Tree} {fuel : Nat} {p : String} {ld : Bool} {zp zv : Option Rat} (cfg : Cfg) (u : Option Rat) (pause : Bool) :
+    Sem t fuel (Inv t p ld zp zv) (Inv t p ld zp zv) (uMove cfg u pause) := by
+  unfold uMove
+  cases u with
+  | none => intro cs _ σ hP; simpa [execStmtsG] using hP
+  | some v =>
+    have hg : Sem t fuel (Inv t p ld zp zv) (Inv t p ld zp zv) (instrR [g1U v]) :=
+      sem_calm _ (fun cs => ⟨[g1U v], rfl, by intro i hi; simp at hi; subst hi; simp [g1U, calm]⟩)
+    cases pause
+    · simpa using hg
+    · simpa using Sem.andThen hg (sem_dwell cfg.longPause)
+
+/-- `PROGRAM LOAD`: the tree controller binds the program to its file -/
+theorem sem_load {t : Tree} {f : Nat} {p path : String} {zp zv : Option Rat} (hin : InTree t path p) :
+    Sem t (f + 1) (Inv t p false zp zv) (Inv t p true zp zv) (loadOp path 2) := by
+  intro cs herr σ hP
+  unfold loadOp at herr ⊢
+  split
+  · rename_i h; simp [h] at herr
+  · obtain ⟨hk, id, body, hres, hfind, hkey, hleaf⟩ := hin
+    simp only [emit, List.map_cons, List.map_nil, execStmtsG, execStmtG, stepT, stepFlat, step, hres, hk]
+    refine ⟨hP.abs, hP.decl, ?_, hP.posz, hP.val⟩
+    intro _
+    refine ⟨?_, id, body, ?_, hfind, hkey, hleaf⟩
+    · split <;> simp_all
+    · simp [lookupBound]
+
+/-- `move_to` with a Z word: the stage stands at the printed depth -/
+theorem sem_moveTo {t : Tree} {fuel : Nat} {p : String} {ld : Bool} {zp zv : Option Rat} (cfg : Cfg) (x y : Option Rat) (z : Rat)
+    (sp : Option Rat) :
+    Sem t fuel (Inv t p ld zp zv) (Inv t p ld (some (fmt cfg.digits z)) zv) (moveToR cfg x y (some z) sp) := by
+  intro cs herr σ hP
+  unfold moveToR moveTo at herr ⊢
+  cases hf : formatArgs cfg.digits x y (some z) (some (sp.getD cfg.speedPos)) with
+  | error e => rw [hf] at herr; simp at herr
+  | ok w =>
+    simp only [seq]
+    have hwz : w.z = some (fmt cfg.digits z) ∧ w.zvar = none := by
+      unfold formatArgs at hf
+      simp only at hf
+      split at hf
+      · cases hf
+      · injection hf with hf; subst hf; exact ⟨rfl, rfl⟩
+    -- closing part: calm
+    have h1 : Inv t p ld zp zv (execStmtsG (stepT t fuel) (closeIfOpen cfg cs).1 σ).1 := by
+      have := sem_shutter (t := t) (fuel := fuel) (p := p) (ld := ld) (zp := zp) (zv := zv) cfg false cs rfl σ hP
+      unfold closeIfOpen
+      split
+      · simpa [shutterR, Res.ofOut] using this
+      · simpa [execStmtsG] using hP
+    rw [execStmtsG_append, execStmtsG_append, execStmtsG_append]
+    set σ1 := (execStmtsG (stepT t fuel) (closeIfOpen cfg cs).1 σ).1
+    -- the G1
+    have h2 : Inv t p ld (some (fmt cfg.digits z)) zv (execStmtsG (stepT t fuel) (emit [Instr.g1 w]) σ1).1 := by
+      simp only [emit, List.map_cons, List.map_nil, execStmtsG, execStmtG]
+      rw [stepT_flat t fuel σ1 _ (by intro q hq; cases hq) (by intro k q hq; cases hq)]
+      refine ⟨h1.abs, h1.decl, h1.ldd, ?_, h1.val⟩
+      intro z' hz'
+      injection hz' with hz'
+      simp only [stepFlat, step, zTarget, hwz.2, hwz.1, axisTarget, h1.abs, if_true, hz']
+    have h3 := sem_dwell (t := t) (fuel := fuel) (p := p) (ld := ld) (zp := some (fmt cfg.digits z)) (zv := zv) cfg.longPause
+      (closeIfOpen cfg cs).2 rfl _ h2
+    simp only [dwellR, Res.ofOut] at h3
+    exact calm_emit t fuel p ld _ zv [.blank] (by intro i hi; simp at hi; subst hi; rfl) _ h3
+
+theorem sem_setVar {t : Tree} {fuel : Nat} {p : String} {ld : Bool} {zp zv : Option Rat} (q : Rat) :
+    Sem t fuel (Inv t p ld zp zv) (Inv t p ld zp (some q)) (instrR [.setVar "zcurr" q]) := by
+  intro cs _ σ hP
+  simp only [instrR, Res.ofOut, emit, List.map_cons, List.map_nil, execStmtsG, execStmtG]
+  rw [stepT_flat t fuel σ _ (by intro q hq; cases hq) (by intro k q hq; cases hq)]
+  simp only [stepFlat, step, hP.decl, if_true]
+  refine ⟨hP.abs, hP.decl, hP.ldd, hP.posz, ?_⟩
+  intro z hz; injection hz with hz; subst hz
+  exact lookup_setVal _ _ _
+
+
+/-- what a successful wall loop emits: one `REPEAT n_repeat` over the wall-loop body of *this* trench, and a blank line -/
+theorem wallLoop_out (cfg : Cfg) (c : Col) (i : Nat) (cs : CS) (herr : (wallLoop cfg c i cs).err = none) :
+    (wallLoop cfg c i cs).out = [Stmt.rep c.nRep.toNat (wallLoopBody (c.wall i) (fmt 6 (c.deltaz / cfg.neff))), Stmt.atom .blank] ∨
+    ∃ d, (wallLoop cfg c i cs).out =
+      [Stmt.rep c.nRep.toNat (wallLoopBodyD d (c.wall i) (fmt 6 (c.deltaz / cfg.neff))), Stmt.atom .blank] := by
+  unfold wallLoop at herr ⊢
+  generalize fmt 6 (c.deltaz / cfg.neff) = q at herr ⊢
+  by_cases hn : c.nRep ≤ 0
+  · simp [hn] at herr
+  · simp only [hn, if_false] at herr ⊢
+    simp only [Res.andThen] at herr ⊢
+    cases he : (farcallOp cfg (c.wall i) cs).err with
+    | some e => rw [he] at herr; simp only at herr; rw [he] at herr; cases herr
+    | none =>
+      simp only [instrR, Res.ofOut, emit, List.map_cons, List.map_nil]
+      unfold farcallOp at he ⊢
+      split at he
+      · simp at he
+      · split at he
+        · simp at he
+        · rename_i h1 h2
+          simp only [h1, h2, if_false, Res.ofOut, seq, dwell]
+          cases cfg.shortPause with
+          | none => left; simp [emit, wallLoopBody]
+          | some t =>
+            by_cases h0 : t = 0
+            · left; simp [h0, emit, wallLoopBody]
+            · right; exact ⟨rabs t, by simp [h0, emit, wallLoopBodyD, wallLoopBody]⟩
+
+theorem ready_of_inv {t : Tree} {p : String} {z : Rat} {σ : St} (h : Inv t p true (some z) (some z) σ) : Ready t p z σ :=
+  ⟨h.abs, (h.ldd rfl).1, (h.ldd rfl).2, h.val z rfl, h.posz z rfl⟩
+
+theorem ready_blank (t : Tree) (f : Nat) (p : String) (z : Rat) (σ : St) (h : Ready t p z σ) :
+    Ready t p z (stepT t (f + 1) σ .blank).1 := by
+  rw [stepT_flat t (f + 1) σ _ (by intro p hp; cases hp) (by intro k p hp; cases hp)]
+  exact ⟨h.abs, h.loaded, h.bound, h.val, h.posz⟩
+
+/-- **the wall loop of the model file, run by the tree controller**: entered with the wall program loaded and bound, the stage
+and `$ZCURR` at depth `z`, its `k`-th turn (for every `k` up to `n_repeat`) leaves the controller ready at `z + k · q`,
+`q = fmt₆(deltaz / neff)` — the wall pass `k` is traced exactly there -/
+theorem sem_wallLoop {t : Tree} {f : Nat} (cfg : Cfg) (c : Col) (i : Nat) (z : Rat) :
+    Sem t (f + 1) (Inv t (c.wall i) true (some z) (some z))
+      (Ready t (c.wall i) (z + c.nRep.toNat * fmt 6 (c.deltaz / cfg.neff))) (wallLoop cfg c i) := by
+  intro cs herr σ hP
+  have hr := ready_of_inv hP
+  rcases wallLoop_out cfg c i cs herr with ho | ⟨d, ho⟩
+  · rw [ho]
+    simp only [execStmtsG, execStmtG]
+    exact ready_blank t f _ _ _ (execRepG_wall t f _ _ _ z σ hr)
+  · rw [ho]
+    simp only [execStmtsG, execStmtG]
+    exact ready_blank t f _ _ _ (execRepG_wallD t f d _ _ _ z σ hr)
+
+/-- the part of a block up to the opening of the shutter before the wall loop -/
+def wallPrefix (cfg : Cfg) (c : Col) (nbox i : Nat) (xy : Rat × Rat) (cs : CS) : Res :=
+  let p := transform cfg xy.1 xy.2 ((nbox : Rat) * c.hBox + c.zOff)
+  (((((((Res.ofOut (comment true cs)).andThen
+    (loadOp (inCol c (c.wall i)) 2)).andThen
+    (instrR [.msg])).andThen
+    (shutterR cfg false)).andThen
+    (uMove cfg (c.u.map (·.1)) true)).andThen
+    (moveToR cfg (some p.1) (some p.2.1) (some p.2.2) (some c.speedClosed))).andThen
+    (instrR [.setVar "zcurr" (fmt 6 p.2.2)])).andThen
+    (shutterR cfg true)
+
+/-- a block of the call file **is** its prefix, the wall loop, and the rest (the floor part), in this order -/
+theorem trenchBlock_split (cfg : Cfg) (c : Col) (nbox i : Nat) (xy : Rat × Rat) (cs : CS) :
+    trenchBlock cfg c nbox i xy cs =
+      ((((((((((wallPrefix cfg c nbox i xy cs).andThen (wallLoop cfg c i)).andThen (removeOp (c.wall i) 2)).andThen
+        (shutterR cfg false)).andThen (loadOp (inCol c (c.floor i)) 2)).andThen (instrR [.msg])).andThen
+        (uMove cfg (c.u.map (·.2)) true)).andThen (shutterR cfg true)).andThen (farcallOp cfg (c.floor i))).andThen fun cs =>
+        (((shutterR cfg false cs).andThen (uMove cfg (c.u.map (·.1)) false)).andThen (removeOp (c.floor i) 2))) := rfl
+
+/-- **from the compiler to the depth of every wall pass.** Take any configuration printing six decimals, any column, level `L`
+and trench `i`, any exported tree that holds — under the path the call file loads — an x / y-only leaf program for the wall of
+that trench. Whenever the block prefix compiles, the tree controller, started in absolute mode with `$ZCURR` declared (the
+`DVAR` the file begins with), reaches the wall loop *ready* at `z₀ = fmt₆(transform(…, L·h_box + z_off).z)`: wall program
+loaded and bound to its leaf file, stage at `z₀`, `$ZCURR = z₀`. -/
+theorem wallPrefix_inv {t : Tree} {f : Nat} (cfg : Cfg) (c : Col) (nbox i : Nat) (xy : Rat × Rat) (hd : cfg.digits = 6)
+    (hin : InTree t (inCol c (c.wall i)) (c.wall i)) :
+    Sem t (f + 1) (Inv t (c.wall i) false none none)
+      (Inv t (c.wall i) true (some (fmt 6 (transform cfg xy.1 xy.2 ((nbox : Rat) * c.hBox + c.zOff)).2.2))
+        (some (fmt 6 (transform cfg xy.1 xy.2 ((nbox : Rat) * c.hBox + c.zOff)).2.2)))
+      (wallPrefix cfg c nbox i xy) := by
+  unfold wallPrefix
+  have hm := sem_moveTo (t := t) (fuel := f + 1) (p := c.wall i) (ld := true) (zp := none) (zv := none) cfg
+    (some (transform cfg xy.1 xy.2 ((nbox : Rat) * c.hBox + c.zOff)).1) (some (transform cfg xy.1 xy.2 ((nbox : Rat) * c.hBox + c.zOff)).2.1)
+    (transform cfg xy.1 xy.2 ((nbox : Rat) * c.hBox + c.zOff)).2.2 (some c.speedClosed)
+  rw [hd] at hm
+  have h := Sem.andThen (Sem.andThen (Sem.andThen (Sem.andThen (Sem.andThen (Sem.andThen (Sem.andThen
+    (sem_comment (t := t) (fuel := f + 1) (p := c.wall i) (ld := false) (zp := none) (zv := none) true)
+    (sem_load (f := f) hin)) sem_msg) (sem_shutter cfg false)) (sem_uMove cfg (c.u.map (·.1)) true)) hm)
+    (sem_setVar (fmt 6 (transform cfg xy.1 xy.2 ((nbox : Rat) * c.hBox + c.zOff)).2.2))) (sem_shutter cfg true)
+  exact h
+
+theorem wallPrefix_ready {t : Tree} {f : Nat} (cfg : Cfg) (c : Col) (nbox i : Nat) (xy : Rat × Rat) (hd : cfg.digits = 6)
+    (hin : InTree t (inCol c (c.wall i)) (c.wall i)) :
+    Sem t (f + 1) (Inv t (c.wall i) false none none)
+      (Ready t (c.wall i) (fmt 6 (transform cfg xy.1 xy.2 ((nbox : Rat) * c.hBox + c.zOff)).2.2))
+      (wallPrefix cfg c nbox i xy) :=
+  fun cs herr σ hP => ready_of_inv (wallPrefix_inv cfg c nbox i xy hd hin cs herr σ hP)
+
+/-- the block up to and including the wall loop: after the loop the controller is ready at `z₀ + n_repeat · q` -/
+theorem wallPart_depth {t : Tree} {f : Nat} (cfg : Cfg) (c : Col) (nbox i : Nat) (xy : Rat × Rat) (hd : cfg.digits = 6)
+    (hin : InTree t (inCol c (c.wall i)) (c.wall i)) :
+    Sem t (f + 1) (Inv t (c.wall i) false none none)
+      (Ready t (c.wall i) (fmt 6 (transform cfg xy.1 xy.2 ((nbox : Rat) * c.hBox + c.zOff)).2.2 +
+        c.nRep.toNat * fmt 6 (c.deltaz / cfg.neff)))
+      (fun cs => (wallPrefix cfg c nbox i xy cs).andThen (wallLoop cfg c i)) := by
+  exact Sem.andThen (wallPrefix_inv (t := t) (f := f) cfg c nbox i xy hd hin) (sem_wallLoop cfg c i _)
+
+
+/-- the z the compiler prints for a level is the glass depth divided by the index ratio -/
+theorem transform_z (cfg : Cfg) (x y z : Rat) : (transform cfg x y z).2.2 = z / cfg.neff := by
+  simp [transform, transformK]; ring
+
+/-- printing the start and the increment with six decimals moves pass `k` by at most `(k + 1)` half-units of the sixth decimal -/
+theorem depth_rounding (a b : Rat) (k : Nat) : |fmt 6 a + k * fmt 6 b - (a + k * b)| ≤ (k + 1) / (2 * pow10 6) := by
+  have h1 := fmt_error 6 a
+  have h2 := fmt_error 6 b
+  have e : fmt 6 a + k * fmt 6 b - (a + k * b) = (fmt 6 a - a) + k * (fmt 6 b - b) := by ring
+  rw [e]
+  calc |(fmt 6 a - a) + (k : Rat) * (fmt 6 b - b)| ≤ |fmt 6 a - a| + |(k : Rat) * (fmt 6 b - b)| := abs_add_le _ _
+    _ = |fmt 6 a - a| + (k : Rat) * |fmt 6 b - b| := by rw [abs_mul, abs_of_nonneg (Nat.cast_nonneg k : (0 : Rat) ≤ (k : Rat))]
+    _ ≤ 1 / (2 * pow10 6) + (k : Rat) * (1 / (2 * pow10 6)) := by
+        have hk : (0 : Rat) ≤ k := Nat.cast_nonneg k
+        nlinarith
+    _ = (k + 1) / (2 * pow10 6) := by ring
+
+/-- **pass `k` of level `L` is traced within `(k + 1) · 5·10⁻⁷` mm (stage units) of the schedule depth `passZ L k / neff`** — the
+depth the controller is ready at after `k` turns of the model file's wall loop (`wallPrefix_inv` + `execRepG_wall`) against the
+exact schedule of `pass_first` / `pass_step` / `pass_last` -/
+theorem pass_depth_error (cfg : Cfg) (c : Col) (L k : Nat) (x y : Rat) :
+    |fmt 6 (transform cfg x y ((L : Rat) * c.hBox + c.zOff)).2.2 + k * fmt 6 (c.deltaz / cfg.neff)
+        - passZ c.hBox c.zOff c.deltaz L k / cfg.neff| ≤ (k + 1) / (2 * pow10 6) := by
+  rw [transform_z]
+  have e : passZ c.hBox c.zOff c.deltaz L k / cfg.neff = ((L : Rat) * c.hBox + c.zOff) / cfg.neff + k * (c.deltaz / cfg.neff) := by
+    unfold passZ; ring
+  rw [e]
+  exact depth_rounding _ _ k
+
+
+/-! non-vacuity: a tree with the wall file of trench 1 of column 1 under `trenchCol001/`, a column with base folder `lab`; the
+hypothesis `InTree` of `wallPrefix_inv` holds, and the initial controller state after the `DVAR` line satisfies the invariant -/
+private def demoCol : Col := { index := 0, nboxz := 2, nRep := 5, baseFolder := "lab", inits := [(1, 2)], hBox := 3/40, zOff := -1/50,
+                               deltaz := 3/2000, speedClosed := 5, u := none }
+private def demoTree : Tree := [("trenchCol001/trench001_WALL.pgm", emit [.g1 { x := some 1, y := some 2, f := some 4 }, .g1 { x := some 1, y := some 3 }])]
+
+example : InTree demoTree (inCol demoCol (demoCol.wall 0)) (demoCol.wall 0) :=
+  ⟨by decide +kernel, "trenchCol001/trench001_WALL.pgm",
+    emit [.g1 { x := some 1, y := some 2, f := some 4 }, .g1 { x := some 1, y := some 3 }],
+    by decide +kernel, rfl, by decide +kernel, by decide +kernel⟩
+
+example : Inv demoTree (demoCol.wall 0) false none none ({ declared := ["zcurr"] } : St) :=
+  { abs := rfl, decl := (by decide), ldd := fun h => (by cases h), posz := fun z h => (by cases h), val := fun z h => (by cases h) }
 
 /-! ### the leaf files (`export_array2d`) -/
 
